@@ -1,0 +1,27 @@
+//go:build verif
+
+package generator
+
+import "text/template"
+
+// Read-only accessors for the verification harness (build tag `verif`). Nothing here is compiled into a normal build.
+
+// VerifReadableSpec exposes generateReadableSpec (the escaper of the embedded spec).
+func VerifReadableSpec(spec []byte) string { return generateReadableSpec(spec) }
+
+// VerifPadComment / VerifBlockComment expose the comment helpers as registered in the FuncMap.
+func VerifPadComment(s string, pads ...string) string { return padComment(s, pads...) }
+func VerifBlockComment(s string) string              { return blockComment(s) }
+
+// VerifTemplates returns the parsed templates of a repository loaded with the defaults (name -> template).
+func VerifTemplates() map[string]*template.Template {
+	repo := templates.ShallowClone()
+	repo.LoadDefaults()
+	out := map[string]*template.Template{}
+	for name := range repo.files {
+		if t, err := repo.Get(name); err == nil {
+			out[name] = t
+		}
+	}
+	return out
+}
